@@ -177,10 +177,16 @@ def run(tier="quick", seed=0):
     rows = [e for _, _, job in results for e in (job.get("rows") or [])]
     if rows:
         pr.validate("TraceRows", rows, name="table-rows", chunks=8, env={"TABLE_FILE": tables.export_tau(3)}, heap="3g")
-    pr.traces = len(traces) + len(by_base) + (1 if rows else 0)
+    # the command line in front of compute(): option precedence, conflicts, output file (Cli.tla; compute() replaced by a recorder)
+    from drivers import cli_model
+    rcli = pr.model_check("MCCli", workers=4)
+    cli_opts = [dict(o) for o in rcli.printed("CLIOPTIONS")[0][1]]
+    cli_ev = cli_model.events(cli_opts, seed, limit=None if thorough else 120)
+    pr.validate("TraceCli", cli_ev, name="cli-invocations", chunks=4)
+    pr.traces = len(traces) + len(by_base) + (1 if rows else 0) + 1
     nrows = len(rows)
     rows = [e["rows"] for e in run_events]
-    pr.note(rows_checked_across_stages=nrows, runs=len(run_events), bases=len(by_base), schedulers=SCHEDS, rows_min=min(rows), rows_max=max(rows),
+    pr.note(cli_invocations=len(cli_ev), cli_rejected=sum(1 for e in cli_ev if e["failed"]), rows_checked_across_stages=nrows, runs=len(run_events), bases=len(by_base), schedulers=SCHEDS, rows_min=min(rows), rows_max=max(rows),
             empty_runs=sum(1 for x in rows if x == 0), cli_runs_compared=cli_checked)
     return pr.finish(
         rule="compute() runs over the TLC-enumerated configuration matrix x {sync, threads-4, processes-2, order-reversed} "
